@@ -412,7 +412,8 @@ package boltz
 //@   nosafety
 //@   modifies *
 //@   callpre[forwards-the-state-it-was-given] ProcessPreCommit@1: recv == self.constraint && ref(arg0) == ref(state)
-//@   lensures[always-forwards-and-returns-the-verdict] called(ProcessPreCommit, 1) && result == ret(ProcessPreCommit, 1)
+//@   lensures[always-forwards-and-returns-the-verdict-the-call-always-happens] called(ProcessPreCommit, 1)
+//@   lensures[always-forwards-and-returns-the-verdict] result == ret(ProcessPreCommit, 1)
 
 //@ func (*untypedEventListenerWrapper).ProcessPreCommit
 //@   props C07
